@@ -31,7 +31,14 @@ def splitters(rng):
         M = Model(species=SP, reactions=[(['A'], ['B'], 'massaction', {'k': 1.0})], initial_condition_dict={s: 1 for s in SP})
         modes = {s: rng.choice(['perfect', 'duplicate', 'binomial']) for s in SP}
         g = GeneralVolumeSplitter()
-        g.py_set_partitioning({'perfect': [s for s in SP if modes[s] == 'perfect'], 'duplicate': [s for s in SP if modes[s] == 'duplicate']}, M)
+        if rng.random() < 0.5:      # the same splitter object configured before with other options: only the last configuration counts
+            prev = {s: rng.choice(['perfect', 'duplicate', 'binomial']) for s in SP}
+            g.py_set_partitioning({'perfect': [s for s in SP if prev[s] == 'perfect'], 'duplicate': [s for s in SP if prev[s] == 'duplicate']}, M)
+        opt = {'perfect': [s for s in SP if modes[s] == 'perfect'], 'duplicate': [s for s in SP if modes[s] == 'duplicate']}
+        for key in ('perfect', 'duplicate'):
+            if not opt[key] and rng.random() < 0.7:
+                del opt[key]          # a mode nobody uses is simply not mentioned
+        g.py_set_partitioning(opt, M)
         noise = rng.choice([0.0, 0.1, 0.3])
         g.py_set_partition_noise(noise)
         ps = VolumeCellState(); ps.py_set_state(x.copy()); ps.py_set_volume(V); ps.py_set_time(0.5)
